@@ -67,16 +67,25 @@ public:
 
   void memory_write(uint32_t address, uint8_t data)
   {
+#ifdef NAKEN_ASM_VERIF
+    naken_asm_verif_pass = pass;
+#endif
     memory.write8(address, data);
   }
 
   void memory_write(uint32_t address, uint8_t data, int line)
   {
+#ifdef NAKEN_ASM_VERIF
+    naken_asm_verif_pass = pass;
+#endif
     memory.write(address, data, line);
   }
 
   void memory_write_inc(uint8_t data, int line)
   {
+#ifdef NAKEN_ASM_VERIF
+    naken_asm_verif_pass = pass;
+#endif
     memory.write(address++, data, line);
   }
 
